@@ -86,7 +86,19 @@ def cp_cases(tier, seed):
                 p2 = [rng.choice([-5, 0, 2, 7, 11]) if k in conf else p[k - 1] for k in nodes]
                 sels = [(None, None, rng.sample(nodes, rng.randint(1, n))), (None, [rng.choice(nodes)], None),
                         ([k for k in nodes if not shape[k - 1]][:1], None, None)]
-                cases.append({"n": n, "deps": shape, "prio": p, "prio2": p2, "conf": conf, "sels": sels})
+                case = {"n": n, "deps": shape, "prio": p, "prio2": p2, "conf": conf, "sels": sels}
+                if rng.random() < 0.35:
+                    # debug nodes (everything that uses a debug node is one): executors pull them below the selected leaves
+                    debug = [False] * n
+                    for k in range(n, 0, -1):
+                        users = [m for m in nodes if k in shape[m - 1]]
+                        if all(debug[m - 1] for m in users) and rng.random() < 0.6:
+                            debug[k - 1] = True
+                    plain = [k for k in nodes if not debug[k - 1]]
+                    if any(debug) and plain:
+                        case["debug"] = debug
+                        case["sels"] = [(None, None, rng.sample(plain, rng.randint(1, len(plain)))), (None, None, [rng.choice(plain)])] + sels[:1]
+                cases.append(case)
     if tier == "quick":
         shapes5 = sd.all_shapes(5)
         for shape in rng.sample(shapes5, 120):
@@ -190,7 +202,7 @@ def _sel_viol(res, prop):
         out.append({"sig": {"clause": mine[0]},
                     "what": f'{mine} on DAG n={it["n"]} deps={it["deps"]} kind={it["kind"]} const={it["const"]} row={row}',
                     "replay": {"engine": "E3", "property": prop, "kind": "sel", "clauses": mine,
-                               "dag": {k: it[k] for k in ("n", "deps", "kind", "const", "tags") if k in it}, "row": row}})
+                               "dag": {k: it[k] for k in ("n", "deps", "kind", "const", "tags", "setuparg") if k in it}, "row": row}})
     return out
 
 
@@ -272,7 +284,7 @@ def replay(payload, log=common.say):
         row = payload["row"]
         n = D["n"]
         unmask = lambda m: None if m == -1 else [k for k in range(1, n + 1) if m >> (k - 1) & 1]  # noqa: E731
-        rec = {"n": n, "deps": D["deps"], "kind": D["kind"], "const": D["const"], "obs": [], "built": True}
+        rec = {"n": n, "deps": D["deps"], "kind": D["kind"], "const": D["const"], "obs": [], "built": True, "setuparg": D.get("setuparg", 0)}
         try:
             base, ids, xs = ed.build(D)
         except BaseException as e:  # noqa: BLE001
